@@ -152,7 +152,8 @@ pub struct GenOpts {
     /// allow `!`, floats, char, Asn, IpAddr, Prefix, host types (layout run);
     /// the behavioural run keeps to types whose values it can build and print
     pub exotic: bool,
-    /// registered host types `Big` (Clone) and `Pt` (Copy) as leaves (behavioural run)
+    /// registered host types `Big` (Clone) and `Pt` (Copy), and f32 / f64 /
+    /// char / Asn / IpAddr / Prefix as leaves (behavioural run)
     pub host: bool,
 }
 
@@ -169,8 +170,17 @@ pub fn gen_type(p: &mut Prng, env: &Env, depth: u32, in_generic: bool, o: &GenOp
             T::Str
         } else if r < 78 && in_generic {
             T::Param
-        } else if o.host && p.chance(1, 2) {
-            if p.chance(1, 2) { T::Host("Big") } else { T::Host("Pt") }
+        } else if o.host && p.chance(2, 3) {
+            match p.below(8) {
+                0 => T::Host("Big"),
+                1 => T::Host("Pt"),
+                2 => T::F32,
+                3 => T::F64,
+                4 => T::Char,
+                5 => T::Asn,
+                6 => T::IpAddr,
+                _ => T::Prefix,
+            }
         } else if o.exotic {
             match p.below(12) {
                 0 => T::Never,
